@@ -8,6 +8,8 @@
 #include <unistd.h>
 #include <signal.h>
 #include <algorithm>
+#include <functional>
+#include <xercesc/util/XMLUni.hpp>
 
 using namespace sim;
 using namespace xalanc;
@@ -107,10 +109,54 @@ void childTerminate() {
     _exit(79);
 }
 
+// Process-level scenario: the two-phase global initialisation (XalanTransformer::initialize with rollback) and terminate()
+// on the simulated manager.  The worker's own initialisation is undone first; ops: 0 xalan-init, 1 transform, 2 xalan-terminate.
+void childInitScenario(const Json& plan, int faultOp, uint64_t faultK) {
+    Json out = Json::object(); Json jops = Json::array();
+    XalanTransformer::terminate(); xercesc::XMLPlatformUtils::Terminate();
+    static SimMemoryManager mm; g_mm = &mm;      // static: Xerces keeps the pointer until Terminate()
+    SimMemoryManager::recordSites() = faultOp < 0;
+    xercesc::XMLPlatformUtils::Initialize(xercesc::XMLUni::fgXercescDefaultLocale, 0, 0, &mm);
+    bool initialised = false; uint64_t allocs[3] = { 0, 0, 0 };
+    auto rec = [&](int i, int status, bool threw, const std::string& exc, const std::string& outp) { Json j = Json::object(); j["allocs"] = (long long)allocs[i]; j["status"] = status; j["threw"] = threw; j["exc"] = exc; j["out"] = hex64(fnvStr(outp)); j["len"] = (long long)outp.size(); j["errEmpty"] = false; if (faultOp < 0) j["bytes"] = outp; jops.push(j); };
+    auto attempt = [&](int i, std::function<void()> f) -> std::pair<bool, std::string> {
+        g_phase = "op" + std::to_string(i); mm.beginOp(); if (i == faultOp) mm.setFault(faultK); else mm.clearFault();
+        std::string exc; bool threw = false;
+        try { f(); } catch (const xercesc::OutOfMemoryException&) { threw = true; exc = "OutOfMemoryException"; } catch (const XSLException&) { threw = true; exc = "XSLException"; } catch (const xercesc::XMLException&) { threw = true; exc = "XMLException"; } catch (...) { threw = true; exc = "unknown"; }
+        allocs[i] = mm.opAllocs; mm.clearFault(); return std::make_pair(threw, exc);
+    };
+    { auto r = attempt(0, [&]() { XalanTransformer::initialize(mm); }); initialised = !r.first; rec(0, 0, r.first, r.second, ""); }
+    if (!initialised) {   // rollback must have left things so that a second initialisation works
+        g_phase = "re-initialize"; try { XalanTransformer::initialize(mm); initialised = true; } catch (...) { out["reinitFailed"] = true; }
+    }
+    std::string outBytes; int st = -99;
+    if (initialised) {
+        auto r = attempt(1, [&]() { XalanTransformer t(mm); SimSink sink; SimIStream dis(plan.str("good_doc"), SrcFault()), sis(plan.str("good_ss"), SrcFault()); XSLTInputSource din(&dis, mm), sin(&sis, mm); st = t.transform(din, sin, &sink, sinkCallback, sinkFlushCallback); outBytes = sink.bytes; });
+        rec(1, st, r.first, r.second, outBytes);
+        auto r2 = attempt(2, [&]() { XalanTransformer::terminate(); }); rec(2, 0, r2.first, r2.second, "");
+    } else { rec(1, -99, true, "not-initialised", ""); rec(2, 0, false, "", ""); }
+    out["ops"] = jops; out["dtorAllocs"] = 0;
+    // recovery: the whole cycle again, fault-free
+    g_phase = "recovery"; std::string recOut; int recSt = -99; bool recThrew = false;
+    try { XalanTransformer::initialize(mm); { XalanTransformer t(mm); SimSink sink; SimIStream dis(plan.str("good_doc"), SrcFault()), sis(plan.str("good_ss"), SrcFault()); XSLTInputSource din(&dis, mm), sin(&sis, mm); recSt = t.transform(din, sin, &sink, sinkCallback, sinkFlushCallback); recOut = sink.bytes; } XalanTransformer::terminate(); } catch (...) { recThrew = true; }
+    out["recStatus"] = recSt; out["recThrew"] = recThrew; out["recOut"] = hex64(fnvStr(recOut)); out["recLen"] = (long long)recOut.size(); out["recLeak"] = 0;
+    out["refused"] = (long long)mm.refused; if (mm.refused) { out["refusedSite"] = responsibleFrames(mm.lastRefusedBt + 1, mm.lastRefusedBtN - 1, 2); out["refusedStack"] = xalanFrames(mm.lastRefusedBt + 1, mm.lastRefusedBtN - 1, 8); }
+    g_phase = "xerces-terminate"; xercesc::XMLPlatformUtils::Terminate();
+    out["liveAfterDelete"] = (long long)mm.liveBlocks; out["liveBytesAfterDelete"] = (long long)mm.liveBytes;
+    if (faultOp < 0 && mm.liveBlocks) { auto sites = mm.liveSites(1); if (!sites.empty()) { out["leakSite"] = responsibleFrames(sites[0].data(), (int)sites[0].size(), 2); out["leakStack"] = xalanFrames(sites[0].data(), (int)sites[0].size(), 8); } }
+    out["foreign"] = (long long)mm.foreignFrees; out["double"] = (long long)mm.doubleFrees; out["foreign2"] = (long long)mm.foreignFrees; out["double2"] = (long long)mm.doubleFrees; out["badfree"] = mm.firstBadFree;
+    out["discarded"] = 0;
+    g_phase = "exit";
+    auto ub = ubsanTake(); if (!ub.empty()) { Json l = Json::array(); for (auto& u : ub) l.push(u); out["ubsan"] = l; }
+    childWrite("RESULT " + out.dump() + "\n");
+    _exit(0);
+}
+
 // Runs in the forked child.  faultOp < 0: dry run.
 void childMain(const Json& plan, int faultOp, uint64_t faultK, int resFd) {
     g_resFd = resFd;
     std::set_terminate(childTerminate);
+    if (plan.str("kind") == "init") childInitScenario(plan, faultOp, faultK);
     Json out = Json::object();
     {
         SimMemoryManager::recordSites() = faultOp < 0;     // the dry run keeps allocation sites so that a fault-free imbalance can name who allocated the block
@@ -267,6 +313,12 @@ struct C19 : public Driver {
         }
         if (g.chance(1, 3)) op("delete");
         p["ops"] = ops;
+        // The process-level initialise / terminate scenario is implemented (childInitScenario) but not part of the verdict: the
+        // property speaks about the manager given to a XalanTransformer, not about XalanTransformer::initialize().  A probe run showed
+        // that a failed initialize() is not restartable (see DESIGN.md 13.4); enable with VERIF_C19_INIT=1 to look at it.
+        if (getenv("VERIF_C19_INIT") && scenario % 6 == 5) {
+            p["kind"] = "init"; Json io = Json::array(); for (const char* k : { "xalan-init", "init-transform", "xalan-terminate" }) { Json o = Json::object(); o["op"] = k; io.push(o); } p["ops"] = io; ops = io;
+        }
         // fault selection
         Json en = Json::object();
         if (tier == "thorough") en["mode"] = "all";
